@@ -18,9 +18,13 @@ def run(ctx: evid.Ctx) -> None:
     b = bounds(ctx.tier)
     known = set(ctx.known)
     for role in ROLES:
-        res = sess.explore(role, b[role], known, ctx.seed, parallel=True, prop=PROP)
-        sess.report(ctx, PROP, role, b[role], res)
-        ctx.note(f"{role}_bfs_levels", res.levels)
+        # base 0: fresh sessions.  base 126: ids 127, 128, 129.. (one- to two-octet INTEGER) -- for the client
+        # a session that has already completed 126 operations ("start from non-initial states too")
+        bases = [0, 126] if (role == "client" or ctx.tier == "thorough") else [0]
+        for base in bases:
+            res = sess.explore(role, b[role] if base == 0 else min(b[role], 2), known, ctx.seed, parallel=True, prop=PROP, id_base=base)
+            sess.report(ctx, PROP, role, b[role] if base == 0 else min(b[role], 2), res, base)
+            ctx.note(f"{role}_bfs_levels_base{base}", res.levels)
     ctx.counters["evaluations"] = ctx.counters.get("transitions", 0)
     ctx.rule = (
         "explicit-state BFS to a fixpoint over one real session; a state is (structural freeze of the session object, "
@@ -36,4 +40,4 @@ def run(ctx: evid.Ctx) -> None:
 
 
 def replay(case: t.Dict[str, t.Any], key: t.Optional[str] = None) -> t.Tuple[bool, str]:
-    return sess.replay_history(case["role"], case["history"], case["K"], PROP, key)
+    return sess.replay_history(case["role"], case["history"], case["K"], PROP, key, case.get("id_base", 0))
